@@ -70,6 +70,7 @@ type Sim struct {
 	pending  map[string]*parkOp
 	counters map[string]int
 	stopped  bool
+	frozen   bool
 	dead     []string
 	selCtr   map[string]uint64
 
@@ -278,7 +279,7 @@ func (s *Sim) Probe(kind string) { s.mu.Lock(); s.Probes[kind]++; s.mu.Unlock() 
 // Violate records the first oracle failure of the run.
 func (s *Sim) Violate(key, detailFmt string, a ...any) {
 	s.mu.Lock()
-	if s.stopped {
+	if s.frozen {
 		// the run is over; what free-running goroutines do during shutdown is not judged
 		s.mu.Unlock()
 		return
@@ -311,6 +312,15 @@ func (s *Sim) Checkpoint(info RunInfo) {
 	if s.checkpoint != nil {
 		s.checkpoint(info)
 	}
+}
+
+// Freeze ends the judged part of a run: later Violate calls (from goroutines that run freely
+// while the system is torn down) are ignored. Harnesses that evaluate oracles after their
+// bubble (history checks) never call it.
+func (s *Sim) Freeze() {
+	s.mu.Lock()
+	s.frozen = true
+	s.mu.Unlock()
 }
 func (s *Sim) SetCheckpoint(f func(RunInfo)) { s.checkpoint = f }
 
